@@ -99,8 +99,17 @@ def premise(chk, P):
                 kind = ".start"
             elif isinstance(node, ast.Attribute) and node.attr == "range_type" and isinstance(node.ctx, ast.Load):
                 p = parents.get(node)
+                def marker(c):
+                    """the literal '>' / '>=' or a class-level constant of the module holding one (an enum of the markers)"""
+                    if isinstance(c, ast.Constant):
+                        return c.value in (">", ">=")
+                    if isinstance(c, ast.Attribute) and isinstance(c.value, ast.Name):
+                        owner = P.resolve_name(fi.module, c.value.id)
+                        expr = getattr(owner, "class_attrs", {}).get(c.attr)
+                        return isinstance(expr, ast.Constant) and expr.value in (">", ">=")
+                    return False
                 ok = isinstance(p, ast.Compare) and all(isinstance(o, (ast.Eq, ast.NotEq)) for o in p.ops) and \
-                    all(isinstance(c, ast.Constant) and c.value in (">", ">=") for c in ([p.left] + p.comparators) if c is not node)
+                    all(marker(c) for c in ([p.left] + p.comparators) if c is not node)
                 if not ok:
                     raise AnalysisError("premise: %s line %d uses range_type other than in ==/!= with the literals '>' and '>='"
                                         % (fi.fq, node.lineno))
@@ -308,7 +317,7 @@ def potable_default(chk, P):
     ConfigParser(text).pair -> Potential_Form_Builder(forms, modifiers).create_potential_function(definition)"""
     from .c14 import parse
     b_cls = P.cls("atsim.potentials.config._potential_form_builder", "Potential_Form_Builder")
-    site = b_cls.lookup("create_potential_function").site()
+    site = b_cls.site_of("create_potential_function")
 
     class ModFactory(object):
         """a modifier: called with (argument definitions, builder)"""
